@@ -3,6 +3,7 @@ package main
 // Symbolic execution of the Go subset over the typed AST, with state merging.
 
 import (
+	"strconv"
 	"bytes"
 	"fmt"
 	"go/ast"
@@ -596,6 +597,37 @@ func (c *FnCtx) evalBinary(st *State, x *ast.BinaryExpr) Val {
 		// arithmetic shift right by 63 of an int: sign mask
 		if b.S == "63" {
 			return Val{K: KInt, S: sIte(sx("<", a.S, "0"), "(- 1)", "0"), T: t}
+		}
+	case token.AND, token.OR:
+		// bit masks with a constant operand on non-negative values: bit-by-bit via div/mod
+		mask, val := b, a
+		if _, err := strconv.ParseInt(a.S, 10, 64); err == nil {
+			mask, val = a, b
+		}
+		if m, err := strconv.ParseInt(mask.S, 10, 64); err == nil && m >= 0 && m < 1<<16 {
+			c.oblige(st, "bits", sx("<=", "0", val.S), "bit operation on a non-negative value: "+nodeStr(x), x.Pos())
+			var terms []string
+			for k := uint(0); k < 16; k++ {
+				if m&(1<<k) == 0 {
+					continue
+				}
+				bit := sx("mod", sx("div", val.S, sInt(1<<k)), "2")
+				if x.Op == token.AND {
+					terms = append(terms, sx("*", sInt(1<<k), bit))
+				} else {
+					terms = append(terms, sx("*", sInt(1<<k), sx("-", "1", bit)))
+				}
+			}
+			sum := "0"
+			if len(terms) == 1 {
+				sum = terms[0]
+			} else if len(terms) > 1 {
+				sum = sx("+", terms...)
+			}
+			if x.Op == token.AND {
+				return Val{K: KInt, S: sum, T: t}
+			}
+			return Val{K: KInt, S: sx("+", val.S, sum), T: t}
 		}
 	case token.XOR:
 		// x ^ 0 = x ; x ^ -1 = -x-1  (used by Abs with the sign mask)
